@@ -227,6 +227,19 @@ theorem call_noninterference (spec : Fn.Spec) (tf : Fn.TypeFn) (impl : Fn.ImplFn
   rw [Fn.call_eq, Fn.call_eq]
   exact Fn.callTable_noAllow spec tf impl args hs hw
 
+/-- **Non-interference of calls, any specification.** For functions that do declare
+`AllowMarked` parameters the marked arguments reach the callbacks, so the
+statement is relative to them: if `Type`, `Impl` and `RefineResult` do not look
+at marks (`TypeBlind`, `ImplBlind`, `RefineBlind`: same outcome class and, after
+`UnmarkDeep`, the same result on unmarked arguments), then neither does the call —
+same outcome, and the unmarked result is the result on the unmarked arguments. -/
+theorem call_noninterference_allowMarked (spec : Fn.Spec) (tf : Fn.TypeFn) (impl : Fn.ImplFn) (args : List Value)
+    (htf : Fn.TypeBlind tf) (himpl : Fn.ImplBlind impl) (hr : Fn.RefineBlind spec)
+    (hw : ∀ v ∈ args, v.v.markerWF = true) :
+    Fn.Out.map unmarkDeep (Fn.call spec tf impl args).1 = (Fn.call spec tf impl (args.map unmarkDeep)).1 := by
+  rw [Fn.call_eq, Fn.call_eq]
+  exact Fn.callTable_blind spec tf impl args htf himpl hr hw
+
 /-- … whose marks are the result's own plus every mark anywhere in any argument. -/
 theorem call_noninterference_marks (args : List Value) (r : Value) (m : String) :
     m ∈ (Fn.withMarkSets r (Fn.argMarkSets args)).marks ↔ m ∈ r.marks ∨ ∃ v ∈ args, m ∈ v.marksDeep := by
@@ -276,6 +289,13 @@ example : setVal [⟨.bool, .marked ["m1"] (.b true)⟩, ⟨.bool, .b false⟩] 
     .ok ⟨.set .bool, .marked ["m1"] (.sset [1, 2] [.b false, .b true])⟩ := by rfl
 example : Fn.Spec.noneAllowMarked { params := [{ ty := .string }], varParam := some { ty := .dyn } } :=
   ⟨by intro p hp; simp at hp; subst hp; rfl, by intro p hp; simp at hp; subst hp; rfl⟩
+example : Fn.TypeBlind (fun as => .ok ((as.headD Value.dynVal).ty)) := by
+  intro as; cases as <;> rfl
+example : Fn.ImplBlind (fun as _ => .ok (as.headD Value.dynVal)) := by
+  intro as t hw
+  cases as with
+  | nil => exact ⟨rfl, fun r h => by cases h; rfl⟩
+  | cons a as => exact ⟨rfl, fun r h => by cases h; exact hw a (by simp)⟩
 example : Fn.Unhandled { params := [{ ty := .dyn }] } [⟨.list .bool, .seq [.marked ["m2"] (.b true)]⟩] "m2" :=
   ⟨0, { ty := .dyn }, _, rfl, rfl, rfl, by decide⟩
 
